@@ -226,7 +226,7 @@ def metamorphic(rng, m, text, full, res):
     m3 = copy.deepcopy(m)
     cls3 = next(c for _, _, c in find_templates(m3) if c.name == cls.name)
     old = rng.choice([tp.name for tp in cls3.tmpl])
-    new = rng.choice(["ZZQ", "Wv9", "R", "PARAM_X"])
+    new = rng.choice(["ZZQ", "Wv9", "R", "PARAM_X", "ThisT", "ArgOfThis", "TThis"])
     rename_param(cls3, old, new)
     t3 = render(m3)
     ren = streams.impl_inst(t3, "icpp")
@@ -237,10 +237,47 @@ def metamorphic(rng, m, text, full, res):
     return None
 
 
+def fwd_typedef_case(idx, payload):
+    """several typedef instantiations of ONE forward-declared (foreign) template: each instantiation is what it is when it is
+    requested alone, in any order"""
+    seed, _ = payload
+    rng = random.Random(seed * 1000003 + idx + 131313)
+    args = ["gtsam::Pose2", "gtsam::Pose3", "double", "gtsam::Point3", "size_t"]
+    k = rng.randint(2, 4)
+    ns = rng.choice(["", "ext"])
+    qual = (ns + "::" if ns else "") + "F"
+    tds = []
+    for i in range(k):
+        a = rng.sample(args, rng.randint(1, 2))
+        tds.append("typedef %s<%s> FT%d;" % (qual, ", ".join(a), i))
+    head = "namespace gtsam { class Pose2 { Pose2(); }; class Pose3 { Pose3(); }; class Point3 { Point3(); }; }\n"
+
+    def mk(lst):
+        body = "class %s; %s" % (qual, " ".join(lst))
+        return head + (("namespace %s { %s }" % (ns, body)) if ns else body) + "\n"
+
+    def decls(text):
+        return {l.split(" | ")[0]: l for l in streams.impl_inst(text, "icpp").split("\n") if l.strip().startswith("D ")}
+    order = list(range(k))
+    rng.shuffle(order)
+    text = mk([tds[i] for i in order])
+    res = dict(idx=idx, text=text, kinds=["fwd_typedefs"], bad=None)
+    full = decls(text)
+    for i in range(k):
+        single = decls(mk([tds[i]]))
+        for name, line in single.items():
+            if full.get(name) != line:
+                res["bad"] = dict(kind="spec", what="a typedef instantiation of a forward-declared template depends on the other typedefs of that template",
+                                  input=text, input_singleton=mk([tds[i]]), expected=line, got=full.get(name))
+                return res
+    return res
+
+
 def run(ctx, n, off=0, collect=True):
     first = None
     # second half: classes with many templated members (member-level templates next to each other)
-    for r in fw.run_cases(case, [(ctx.seed + off, None)] * n + [(ctx.seed + off + 1, dict(p_template=0.3, p_member_template=0.8, max_members=7, max_decls=3))] * (n // 2)):
+    for r in (fw.run_cases(case, [(ctx.seed + off, None)] * n + [(ctx.seed + off + 1, dict(p_template=0.3, p_member_template=0.8, max_members=7, max_decls=3))] * (n // 2))
+              + fw.run_cases(fwd_typedef_case, [(ctx.seed + off, None)] * max(10, n // 8))):
         if "crash" in r:
             raise RuntimeError(r["crash"])
         if collect:
